@@ -4,7 +4,7 @@
 //!   harness gen <scenario> --seed S --traces N --ops M     generate + execute
 //!   harness replay                                         execute op lines from stdin
 //!   harness enum <scenario> --depth D [--shard I --of N]   every op sequence of length D over the scenario's
-//!                                                          small-scope alphabet(s) (pruned after a failing op)
+//!                                                          small-scope alphabet(s) (pruned after an op that leaves the state unchanged)
 //!   harness enum <scenario> --describe                     the variants and alphabets, as text
 mod common;
 mod registry;
@@ -116,9 +116,9 @@ fn main() {
                     variant += 1;
                     continue;
                 }
-                // odometer over alphabet indices; a sequence is cut after its first failing op (a failed call leaves
-                // no trace in the state, so every continuation is covered by a shorter sequence) and the odometer
-                // skips everything that shares the failing prefix
+                // odometer over alphabet indices; a sequence is cut after its first op that leaves the state unchanged
+                // (a failed call, a query, an accepted call whose complete observation is the same as before: every
+                // continuation is covered by a shorter sequence) and the odometer skips everything sharing that prefix
                 let mut d = vec![0usize; depth];
                 'seqs: loop {
                     let key = if depth >= 2 { (d[0] * n + d[1]) as u64 } else { d[0] as u64 };
@@ -127,16 +127,29 @@ fn main() {
                         tid += 1;
                         let header = scen.start(0, tid);
                         writeln!(out, "{header}").unwrap();
+                        // returns true when the op left the state as it was: it failed, or it is a query (no observation),
+                        // or its observation equals the previous one (observations are complete: §2.4)
+                        let mut last_obs: Option<String> = None;
                         let mut run = |out: &mut dyn Write, scen: &mut Box<dyn Scenario>, op: &str| -> bool {
                             writeln!(out, "{op}").unwrap();
                             out.flush().unwrap();
                             let ls = common::catch(|| scen.apply(op)).unwrap_or_else(|| vec!["> err harness_panic=1".to_string()]);
                             let failed = ls.iter().any(|l| l.starts_with("> err"));
-                            for l in ls {
+                            let obs = ls.iter().find(|l| l.starts_with("obs")).cloned();
+                            for l in &ls {
                                 writeln!(out, "{l}").unwrap();
                             }
                             out.flush().unwrap();
-                            failed
+                            let is_env = op.starts_with("env ");
+                            let same = match (&obs, &last_obs) {
+                                (Some(a), Some(b)) => a == b,
+                                (None, _) => !is_env,
+                                _ => false,
+                            };
+                            if obs.is_some() {
+                                last_obs = obs;
+                            }
+                            failed || same
                         };
                         for l in &ss.prefix {
                             run(&mut out, &mut scen, l);
